@@ -1,7 +1,8 @@
 SPECIFICATION Spec
 CONSTANTS
-  MaxBytes = 5
-  Cuts = {"transit"}
+  MaxBytes = 4
+  Cuts = {"transit", "stall"}
+  ForwarderWaitsOnNode = FALSE
   AcceptLeavesDeadline = FALSE
   MaxNotices = 1
   NoticeEndsStream = FALSE
